@@ -66,10 +66,10 @@ type Obs struct {
 	Note  string `json:"note,omitempty"`
 }
 
-func addr(a uint64) common.Address { return common.BigToAddress(new(big.Int).SetUint64(a)) }
+func addr(a uint64) common.Address   { return common.BigToAddress(new(big.Int).SetUint64(a)) }
 func unaddr(a common.Address) uint64 { return new(big.Int).SetBytes(a.Bytes()).Uint64() }
-func peerOf(j JPeer) p2p.Peer       { return p2p.Peer{EthAddress: addr(j.Addr), Type: p2p.PeerType(j.Role)} }
-func jpeer(p p2p.Peer) JPeer        { return JPeer{unaddr(p.EthAddress), int(p.Type)} }
+func peerOf(j JPeer) p2p.Peer        { return p2p.Peer{EthAddress: addr(j.Addr), Type: p2p.PeerType(j.Role)} }
+func jpeer(p p2p.Peer) JPeer         { return JPeer{unaddr(p.EthAddress), int(p.Type)} }
 
 type svc struct {
 	mu         sync.Mutex
@@ -99,8 +99,9 @@ func (s *svc) GetPeerInfo(p p2p.Peer) ([]byte, error) {
 }
 
 type recStream struct {
-	s  *svc
-	to p2p.Peer
+	s     *svc
+	to    p2p.Peer
+	wrote bool
 }
 
 func (r *recStream) ReadMsg(context.Context, proto.Message) error { return errors.New("not used") }
@@ -109,6 +110,11 @@ func (r *recStream) WriteMsg(_ context.Context, m proto.Message) error {
 	if !ok {
 		return errors.New("unexpected message")
 	}
+	if r.wrote {
+		// the peer's discovery handler reads ONE list per stream: anything written after it is lost
+		return nil
+	}
+	r.wrote = true
 	b := JBroadcast{To: jpeer(r.to), Records: []uint64{}}
 	for _, pi := range pl.Peers {
 		a := unaddr(common.BytesToAddress(pi.EthAddress))
@@ -150,7 +156,7 @@ func (s *svc) NewStream(ctx context.Context, p p2p.Peer, _ p2p.Header, _ p2p.Str
 		case <-time.After(2 * time.Second):
 		}
 	}
-	return &recStream{s, p}, nil
+	return &recStream{s: s, to: p}, nil
 }
 func (s *svc) Connect(_ context.Context, info []byte) (p2p.Peer, error) {
 	defer s.done.Done()
@@ -397,6 +403,18 @@ func main() {
 		{"same-address-two-roles", []JEv{{T: "connected", P: P(1, 1)}, {T: "connected", P: P(1, 2)}, {T: "disconnected", P: P(1, 1)}, {T: "connected", P: P(2, 1)}}},
 		{"unknown-roles", []JEv{{T: "connected", P: P(1, 0)}, {T: "connected", P: P(2, -1)}, {T: "connected", P: P(3, 1)}, {T: "disconnected", P: P(3, 0)}, {T: "connected", P: P(4, 7)}}},
 		{"reconnect", []JEv{{T: "connected", P: P(1, 1)}, {T: "disconnected", P: P(1, 1)}, {T: "connected", P: P(2, 2)}, {T: "connected", P: P(1, 1)}, {T: "connected", P: P(1, 1)}}},
+	}
+	// more providers than any batch, worker pool or buffer size the sources are likely to mention
+	{
+		var evs []JEv
+		for a := uint64(20); a < 20+37; a++ {
+			evs = append(evs, JEv{T: "connected", P: P(a, 1)})
+			if a%9 == 0 {
+				evs = append(evs, JEv{T: "connected", P: P(a+100, 2)})
+			}
+		}
+		evs = append(evs, JEv{T: "connected", P: P(2, 2)}, JEv{T: "connected", P: P(1, 1)}, JEv{T: "disconnected", P: P(25, 1)}, JEv{T: "connected", P: P(3, 2)})
+		fixed = append(fixed, In{"many-providers", evs})
 	}
 	// a peer disconnects while its own announcement is still going out
 	fixed = append(fixed,
